@@ -271,6 +271,68 @@ func (in *Interp) simplifyBool(t *Term) *Term {
 		in.simpMemo[t] = simpEnt{in.domVer[v], res}
 		return res
 	}
+	if in.enum2 && t.sup2[0] != nil && t.sup2[0].w <= 8 && t.sup2[1].w <= 8 && t.sup2[0].w > 0 && t.sup2[1].w > 0 && t.size < 400000 {
+		// two small variables: decide by enumeration of both domains
+		v1, v2 := t.sup2[0], t.sup2[1]
+		key := t
+		if e, ok := in.simpMemo[key]; ok && e.ver == in.domVer[v1]*100003+in.domVer[v2] {
+			return e.res
+		}
+		d1, d2 := in.domOf(v1), in.domOf(v2)
+		nT, nF := 0, 0
+		// cheap sampling first: most non-constant terms show both values quickly
+		for i := uint64(0); i < 48 && (nT == 0 || nF == 0); i++ {
+			a := (i*37 + 11) & mask(v1.w)
+			b := (i*101 + 7) & mask(v2.w)
+			if i%3 == 0 {
+				b = a & mask(v2.w)
+			}
+			if d1[a>>6]&(1<<(a&63)) == 0 || d2[b>>6]&(1<<(b&63)) == 0 {
+				continue
+			}
+			if ts.EvalWith2(t, v1, a, v2, b) != 0 {
+				nT++
+			} else {
+				nF++
+			}
+		}
+		if nT > 0 && nF > 0 {
+			in.simpMemo[key] = simpEnt{in.domVer[v1]*100003 + in.domVer[v2], t}
+			goto structural
+		}
+		nT, nF = 0, 0
+	outer:
+		for a := uint64(0); a <= mask(v1.w); a++ {
+			if d1[a>>6]&(1<<(a&63)) == 0 {
+				continue
+			}
+			for b := uint64(0); b <= mask(v2.w); b++ {
+				if d2[b>>6]&(1<<(b&63)) == 0 {
+					continue
+				}
+				if ts.EvalWith2(t, v1, a, v2, b) != 0 {
+					nT++
+				} else {
+					nF++
+				}
+				if nT > 0 && nF > 0 {
+					break outer
+				}
+			}
+		}
+		res := t
+		if nF == 0 {
+			res = ts.True
+		} else if nT == 0 {
+			res = ts.False
+		}
+		in.simpMemo[key] = simpEnt{in.domVer[v1]*100003 + in.domVer[v2], res}
+		if res != t {
+			in.stats.Enum2++
+			return res
+		}
+	}
+structural:
 	switch t.op {
 	case OpAnd:
 		return ts.And(in.simplifyBool(t.a), in.simplifyBool(t.b))
@@ -358,10 +420,32 @@ func (in *Interp) feasible(extra *Term) (map[string]uint64, string) {
 		in.stats.QuickSat++
 		return m, "sat"
 	}
+	if !in.enum2 {
+		// last resort before the solver: exhaustive evaluation over pairs of octet variables
+		in.enum2 = true
+		e2 := in.simplifyBool(extra)
+		in.enum2 = false
+		if e2.IsConst() {
+			if e2.k == 0 {
+				return nil, "unsat"
+			}
+			return in.ts.model, "sat"
+		} else if e2 != extra {
+			return in.feasible(e2)
+		}
+	}
 	in.syncPC()
 	in.sol.Push()
 	in.sol.Assert(extra)
+	tq := time.Now()
 	r := in.sol.Check()
+	if d := time.Since(tq); d > time.Second && os.Getenv("SYMGO_SLOW") != "" {
+		st := ""
+		for f := in.curFrame; f != nil; f = f.caller {
+			st += " <- " + f.fn.String()
+		}
+		fmt.Fprintf(os.Stderr, "SLOW query %.1fs result=%s size=%d extra=%v\n   at%s\n", d.Seconds(), r, extra.size, extra, st)
+	}
 	var m map[string]uint64
 	if r == "sat" {
 		var ok bool
@@ -882,6 +966,7 @@ type workerStats struct {
 	QuickSat int
 	DomUnsat int
 	Merges   int
+	Enum2    int
 }
 
 func traceString(tr []Decision) string {
